@@ -639,7 +639,133 @@ func runMsg(c *Case) lib.Result {
 			fail("msg-order", "%s", why)
 		}
 	}
+	// the anchored mechanism, field by field (an independent statement of fields_merged, Props/C14.v)
+	if why := fieldSpec(c.Msgs, obs[apiConcatMessages]); why != "" {
+		fail("msg-field-spec", "ConcatMessages: %s", why)
+	}
 	return res
+}
+
+// fieldSpec states what ConcatMessages must return for the fields the property's mechanism
+// names: role / name / tool-call id consistency (the one non-empty value all chunks agree on,
+// two different non-empty values are an error), content joined, finish reason = the last
+// non-empty one, usage = component-wise maximum (never below 0), response meta / usage present
+// iff some chunk has one, tool-call id / type / name per index group by the same consistency rule.
+func fieldSpec(in []*Msg, out MObs) string {
+	if out.Class == "panic" {
+		return ""
+	}
+	for _, m := range in {
+		if m == nil || m.Nil {
+			if out.Class != "err" {
+				return "a nil chunk must be an error"
+			}
+			return ""
+		}
+	}
+	conflict := ""
+	pick := func(what string, vals []string) string {
+		cur := ""
+		for _, v := range vals {
+			if v == "" {
+				continue
+			}
+			if cur == "" {
+				cur = v
+			} else if cur != v && conflict == "" {
+				conflict = fmt.Sprintf("%s %q vs %q", what, cur, v)
+			}
+		}
+		return cur
+	}
+	col := func(f func(*Msg) string) []string {
+		var vs []string
+		for _, m := range in {
+			vs = append(vs, f(m))
+		}
+		return vs
+	}
+	role := pick("role", col(func(m *Msg) string { return m.Role }))
+	name := pick("name", col(func(m *Msg) string { return m.Name }))
+	tcid := pick("tool-call id", col(func(m *Msg) string { return m.TCID }))
+	type grp struct{ id, typ, name []string }
+	groups := map[int64]*grp{}
+	var order []int64
+	for _, m := range in {
+		for _, t := range m.TCs {
+			if t.Idx == nil {
+				continue
+			}
+			g, ok := groups[*t.Idx]
+			if !ok {
+				g = &grp{}
+				groups[*t.Idx] = g
+				order = append(order, *t.Idx)
+			}
+			g.id, g.typ, g.name = append(g.id, t.ID), append(g.typ, t.Type), append(g.name, t.Name)
+		}
+	}
+	want := map[int64][3]string{}
+	for _, i := range order {
+		g := groups[i]
+		want[i] = [3]string{pick(fmt.Sprintf("tool id of index %d", i), g.id), pick(fmt.Sprintf("tool type of index %d", i), g.typ),
+			pick(fmt.Sprintf("tool name of index %d", i), g.name)}
+	}
+	if conflict != "" {
+		if out.Class != "err" {
+			return "conflicting " + conflict + " must be an error, got " + js(out)
+		}
+		return ""
+	}
+	if out.Class != "val" {
+		return "" // other error sources (Extra maps) are checked by the correspondence
+	}
+	r := out.Val
+	if r.Role != role || r.Name != name || r.TCID != tcid {
+		return fmt.Sprintf("role/name/tool-call id %q/%q/%q, the chunks agree on %q/%q/%q", r.Role, r.Name, r.TCID, role, name, tcid)
+	}
+	for _, t := range r.TCs {
+		if t.Idx == nil {
+			continue
+		}
+		if w, ok := want[*t.Idx]; ok && (t.ID != w[0] || t.Type != w[1] || t.Name != w[2]) {
+			return fmt.Sprintf("tool call %d has id/type/name %q/%q/%q, its fragments agree on %q/%q/%q", *t.Idx, t.ID, t.Type, t.Name, w[0], w[1], w[2])
+		}
+	}
+	hasMeta, hasUsage, finish := false, false, ""
+	var mx [3]int64
+	for _, m := range in {
+		if m.Meta == nil {
+			continue
+		}
+		hasMeta = true
+		if m.Meta.Finish != "" {
+			finish = m.Meta.Finish
+		}
+		if u := m.Meta.Usage; u != nil {
+			hasUsage = true
+			for i := range mx {
+				if u[i] > mx[i] {
+					mx[i] = u[i]
+				}
+			}
+		}
+	}
+	if hasMeta != (r.Meta != nil) {
+		return fmt.Sprintf("response meta present = %v, some chunk has one = %v", r.Meta != nil, hasMeta)
+	}
+	if r.Meta != nil {
+		if r.Meta.Finish != finish {
+			return fmt.Sprintf("finish reason %q, the last non-empty one is %q", r.Meta.Finish, finish)
+		}
+		if hasUsage != (r.Meta.Usage != nil) {
+			return fmt.Sprintf("usage present = %v, some chunk has one = %v", r.Meta.Usage != nil, hasUsage)
+		}
+		if r.Meta.Usage != nil && *r.Meta.Usage != mx {
+			return fmt.Sprintf("usage %v, the component-wise maximum is %v", *r.Meta.Usage, mx)
+		}
+	}
+	return ""
 }
 
 // runMsgErr: a message stream whose reader reports a read error: every stream-level entry
